@@ -1,0 +1,159 @@
+//go:build verif
+
+// Contracts for package runtime (comment-only; read by /verif/plvc).
+
+package runtime
+
+// ---------------------------------------------------------------------------
+// shared vocabulary
+
+//@ spec wfVal(v any, t ast.DType) bool = (t == ast.String ==> typeis(v, string)) && (t == ast.List ==> typeis(v, []any))
+//@ | && (t == ast.Map ==> typeis(v, map[string]any)) && (t == ast.Int ==> typeis(v, int64))
+//@ | && (t == ast.Float ==> typeis(v, float64)) && (t == ast.Bool ==> typeis(v, bool))
+//@ | && (t == ast.Nil ==> v == nil)
+
+//@ spec isNum(t ast.DType) bool = t == ast.Int || t == ast.Float || t == ast.Bool
+
+// value of a numeric operand as int64 / float64 (bool counts as 0/1)
+//@ spec asInt(v any, t ast.DType) int64 = t == ast.Int ? v.(int64) : (t == ast.Bool ? (v.(bool) ? 1 : 0) : int64(v.(float64)))
+//@ spec asFloat(v any, t ast.DType) float64 = t == ast.Float ? v.(float64) : (t == ast.Int ? float64(v.(int64)) : (v.(bool) ? 1.0 : 0.0))
+
+// ---------------------------------------------------------------------------
+// assumed contracts of spf13/cast on the Go types the tag invariant allows
+
+//@ extern github.com/spf13/cast.ToInt64
+//@ pure
+//@ ensures typeis(i, int64) ==> result == i.(int64)
+//@ ensures typeis(i, bool) ==> result == (i.(bool) ? 1 : 0)
+//@ ensures typeis(i, float64) ==> result == int64(i.(float64))
+//@ ensures i == nil ==> result == 0
+
+//@ extern github.com/spf13/cast.ToInt
+//@ pure
+//@ ensures typeis(i, int64) ==> result == int(i.(int64))
+//@ ensures typeis(i, bool) ==> result == (i.(bool) ? 1 : 0)
+//@ ensures typeis(i, float64) ==> result == int(i.(float64))
+//@ ensures i == nil ==> result == 0
+
+//@ extern github.com/spf13/cast.ToFloat64
+//@ pure
+//@ ensures typeis(i, float64) ==> result == i.(float64)
+//@ ensures typeis(i, int64) ==> result == float64(i.(int64))
+//@ ensures typeis(i, bool) ==> result == (i.(bool) ? 1.0 : 0.0)
+//@ ensures i == nil ==> result == 0.0
+
+//@ extern github.com/spf13/cast.ToBool
+//@ pure
+//@ ensures typeis(i, bool) ==> result == i.(bool)
+//@ ensures i == nil ==> result == false
+
+//@ extern github.com/spf13/cast.ToString
+//@ pure
+//@ ensures typeis(i, string) ==> result == i.(string)
+//@ ensures i == nil ==> result == ""
+
+//@ extern github.com/spf13/cast.ToSlice
+//@ pure
+//@ ensures typeis(i, []any) ==> result == i.([]any)
+
+//@ extern fmt.Errorf
+//@ pure
+//@ ensures result != nil
+
+//@ extern fmt.Sprintf
+//@ pure
+
+//@ extern reflect.TypeOf
+//@ pure
+
+//@ extern reflect.DeepEqual
+//@ pure
+//@ ensures x == y ==> result
+
+//@ extern strings.Contains
+//@ pure
+
+//@ extern error.Error
+//@ pure
+
+// ---------------------------------------------------------------------------
+// C02: operator kernels (bit-precise int64, IEEE float64)
+
+//@ func arithOpInt
+//@ props C02
+//@ intmode bv64
+//@ ensures op == ast.ADD ==> result0 == l + r && result1 == ast.Int && result2 == nil
+//@ ensures op == ast.SUB ==> result0 == l - r && result1 == ast.Int && result2 == nil
+//@ ensures op == ast.MUL ==> result0 == l * r && result1 == ast.Int && result2 == nil
+//@ ensures op == ast.DIV && r != 0 ==> result0 == l / r && result1 == ast.Int && result2 == nil
+//@ ensures op == ast.MOD && r != 0 ==> result0 == l % r && result1 == ast.Int && result2 == nil
+//@ ensures (op == ast.DIV || op == ast.MOD) && r == 0 ==> result2 != nil
+//@ ensures op != ast.ADD && op != ast.SUB && op != ast.MUL && op != ast.DIV && op != ast.MOD ==> result2 != nil
+
+//@ func arithOpFloat
+//@ props C02
+//@ intmode bv64
+//@ ensures op == ast.ADD ==> same(result0, l + r) && result1 == ast.Float && result2 == nil
+//@ ensures op == ast.SUB ==> same(result0, l - r) && result1 == ast.Float && result2 == nil
+//@ ensures op == ast.MUL ==> same(result0, l * r) && result1 == ast.Float && result2 == nil
+//@ ensures op == ast.DIV && r != 0.0 ==> same(result0, l / r) && result1 == ast.Float && result2 == nil
+//@ ensures op == ast.DIV && r == 0.0 ==> result2 != nil
+//@ ensures op != ast.ADD && op != ast.SUB && op != ast.MUL && op != ast.DIV ==> result2 != nil
+
+//@ func typePromotion
+//@ props C02
+//@ ensures result == ((l == ast.Float || r == ast.Float) ? ast.Float : ast.Int)
+
+//@ func cmpType
+//@ props C02
+//@ ensures result == isNum(dtype)
+
+//@ func arithType
+//@ props C02
+//@ ensures result == (isNum(dtype) || dtype == ast.String)
+
+//@ func assign2arithOp
+//@ props C02
+//@ ensures op == ast.ADDEQ ==> result0 == ast.ADD && result1
+//@ ensures op == ast.SUBEQ ==> result0 == ast.SUB && result1
+//@ ensures op == ast.MULEQ ==> result0 == ast.MUL && result1
+//@ ensures op == ast.DIVEQ ==> result0 == ast.DIV && result1
+//@ ensures op == ast.MODEQ ==> result0 == ast.MOD && result1
+//@ ensures op != ast.ADDEQ && op != ast.SUBEQ && op != ast.MULEQ && op != ast.DIVEQ && op != ast.MODEQ ==> !result1
+
+//@ func condOp
+//@ props C02
+//@ intmode bv64
+//@ requires wfVal(lhs, lhsT) && wfVal(rhs, rhsT)
+//@ ensures[C02] result2 == nil ==> result1 == ast.Bool && typeis(result0, bool)
+// equality: exact on integers, IEEE when a float operand is present, false across unrelated types
+//@ ensures[C02] op == ast.EQEQ ==> result2 == nil
+//@ ensures[C02] op == ast.NEQ ==> result2 == nil
+//@ ensures[C02] op == ast.EQEQ && isNum(lhsT) && isNum(rhsT) && lhsT != ast.Float && rhsT != ast.Float ==> result0.(bool) == (asInt(lhs, lhsT) == asInt(rhs, rhsT))
+//@ ensures[C02] op == ast.NEQ && isNum(lhsT) && isNum(rhsT) && lhsT != ast.Float && rhsT != ast.Float ==> result0.(bool) == (asInt(lhs, lhsT) != asInt(rhs, rhsT))
+//@ ensures[C02] op == ast.EQEQ && isNum(lhsT) && isNum(rhsT) && (lhsT == ast.Float || rhsT == ast.Float) ==> result0.(bool) == (asFloat(lhs, lhsT) == asFloat(rhs, rhsT))
+//@ ensures[C02] op == ast.NEQ && isNum(lhsT) && isNum(rhsT) && (lhsT == ast.Float || rhsT == ast.Float) ==> result0.(bool) == (asFloat(lhs, lhsT) != asFloat(rhs, rhsT))
+//@ ensures[C02] op == ast.EQEQ && isNum(lhsT) && !isNum(rhsT) ==> result0.(bool) == false
+//@ ensures[C02] op == ast.NEQ && isNum(lhsT) && !isNum(rhsT) ==> result0.(bool) == true
+//@ ensures[C02] op == ast.EQEQ && lhsT == ast.String && rhsT == ast.String ==> result0.(bool) == (lhs.(string) == rhs.(string))
+//@ ensures[C02] op == ast.NEQ && lhsT == ast.String && rhsT == ast.String ==> result0.(bool) == (lhs.(string) != rhs.(string))
+//@ ensures[C02] op == ast.EQEQ && lhsT == ast.String && rhsT != ast.String ==> result0.(bool) == false
+//@ ensures[C02] op == ast.NEQ && lhsT == ast.String && rhsT != ast.String ==> result0.(bool) == true
+//@ ensures[C02] op == ast.EQEQ && lhsT == ast.Nil ==> result0.(bool) == (rhsT == ast.Nil)
+//@ ensures[C02] op == ast.NEQ && lhsT == ast.Nil ==> result0.(bool) == (rhsT != ast.Nil)
+// ordering: exact on integers, IEEE with a float operand, an error for non-numeric operands
+//@ ensures[C02] (op == ast.LT || op == ast.LTE || op == ast.GT || op == ast.GTE || op == ast.AND || op == ast.OR) && (!isNum(lhsT) || !isNum(rhsT)) ==> result2 != nil
+//@ ensures[C02] (op == ast.LT || op == ast.LTE || op == ast.GT || op == ast.GTE) && isNum(lhsT) && isNum(rhsT) ==> result2 == nil
+//@ ensures[C02] op == ast.LT && isNum(lhsT) && isNum(rhsT) && lhsT != ast.Float && rhsT != ast.Float ==> result0.(bool) == (asInt(lhs, lhsT) < asInt(rhs, rhsT))
+//@ ensures[C02] op == ast.LTE && isNum(lhsT) && isNum(rhsT) && lhsT != ast.Float && rhsT != ast.Float ==> result0.(bool) == (asInt(lhs, lhsT) <= asInt(rhs, rhsT))
+//@ ensures[C02] op == ast.GT && isNum(lhsT) && isNum(rhsT) && lhsT != ast.Float && rhsT != ast.Float ==> result0.(bool) == (asInt(lhs, lhsT) > asInt(rhs, rhsT))
+//@ ensures[C02] op == ast.GTE && isNum(lhsT) && isNum(rhsT) && lhsT != ast.Float && rhsT != ast.Float ==> result0.(bool) == (asInt(lhs, lhsT) >= asInt(rhs, rhsT))
+//@ ensures[C02] op == ast.LT && isNum(lhsT) && isNum(rhsT) && (lhsT == ast.Float || rhsT == ast.Float) ==> result0.(bool) == (asFloat(lhs, lhsT) < asFloat(rhs, rhsT))
+//@ ensures[C02] op == ast.LTE && isNum(lhsT) && isNum(rhsT) && (lhsT == ast.Float || rhsT == ast.Float) ==> result0.(bool) == (asFloat(lhs, lhsT) <= asFloat(rhs, rhsT))
+//@ ensures[C02] op == ast.GT && isNum(lhsT) && isNum(rhsT) && (lhsT == ast.Float || rhsT == ast.Float) ==> result0.(bool) == (asFloat(lhs, lhsT) > asFloat(rhs, rhsT))
+//@ ensures[C02] op == ast.GTE && isNum(lhsT) && isNum(rhsT) && (lhsT == ast.Float || rhsT == ast.Float) ==> result0.(bool) == (asFloat(lhs, lhsT) >= asFloat(rhs, rhsT))
+// logic: only on two booleans
+//@ ensures[C02] (op == ast.AND || op == ast.OR) && (lhsT != ast.Bool || rhsT != ast.Bool) ==> result2 != nil
+//@ ensures[C02] op == ast.AND && lhsT == ast.Bool && rhsT == ast.Bool ==> result2 == nil && result0.(bool) == (lhs.(bool) && rhs.(bool))
+//@ ensures[C02] op == ast.OR && lhsT == ast.Bool && rhsT == ast.Bool ==> result2 == nil && result0.(bool) == (lhs.(bool) || rhs.(bool))
+//@ ensures[C02] op != ast.EQEQ && op != ast.NEQ && op != ast.LT && op != ast.LTE && op != ast.GT && op != ast.GTE && op != ast.AND && op != ast.OR ==> result2 != nil
